@@ -135,7 +135,7 @@ func setupIter(s iterScript) *iterEnv {
 	sqldb, f := openFake()
 	sqldb.SetMaxOpenConns(1)
 	e := &iterEnv{f: f, db: sqlair.NewDB(sqldb)}
-	e.ctx, e.cancel = context.WithCancel(context.Background())
+	e.ctx, e.cancel = cancellable(context.Background(), uint64(s.resultID+len(s.rows)))
 	f.rowsFor = func(sql string, _ []driver.NamedValue) *rowsScript {
 		rs := &rowsScript{Cols: []string{"_sqlair_0", "_sqlair_1", "_sqlair_2"}, FailAt: -1}
 		for _, r := range s.rows {
